@@ -445,8 +445,15 @@ def build_callbacks(cfg, R, plan, nn_state, tmpdir):
                 meta = (lambda nn, ep, _i=i: {"epoch_meta": ep, "tag": "t%d" % _i})
             else:
                 meta = None
+            # "a format string with one blank": the blank in every spelling the format mini-language has for it
+            # (a numeric format spec cannot take the word "initial")
+            forms = ["m{}.pt", "m{0}.pt", "m{!s}.pt"] + ([] if d["initial"] else ["m{:03d}.pt", "m{:d}.pt"])
+            R.fname_rot = getattr(R, "fname_rot", 0) + 1
+            fmt = forms[(R.fname_rot + R.lam_parity) % len(forms)]
+            R.fnames = getattr(R, "fnames", {})
+            R.fnames[i] = fmt
             slot.append(common.api_call(ModelSaver, SAVER_ORDER,
-                                        dict(period=d["period"], folder_path=os.path.join(tmpdir, "sv%d" % i), file_name="m{}.pt",
+                                        dict(period=d["period"], folder_path=os.path.join(tmpdir, "sv%d" % i), file_name=fmt,
                                              save_initial=bool(d["initial"]), metadata=meta,
                                              metadata_only=bool(d.get("metaonly")))))
         elif t == "logger":
@@ -642,7 +649,7 @@ def real_run(cfg, plan=(), seed=0, k=1, lr=0.05, numeric_hook=None, time_flag=Fa
         else:
             same = data == [list(map(float, r)) for r in data_rows]
         res = dict(hist=R.hist, stop=bool(nn_state.stop_training), pver=R.opt_steps, sched=R.sched_steps,
-                   cbs=cbstate, error=err, aborted=aborted, objs=cbs, saves=saves, hash0=h0, hashes=R.hash_at,
+                   cbs=cbstate, error=err, aborted=aborted, objs=cbs, fnames=getattr(R, "fnames", {}), saves=saves, hash0=h0, hashes=R.hash_at,
                    hash_end=param_hash(nn_state), rng0=rng0,
                    rng_end=common.sha(torch.get_rng_state().numpy().tobytes()),
                    data_same=same and repr(data_rows) == data_before,
